@@ -306,6 +306,10 @@ def run(check: Check):
   # the optimizer wrapper used by server optimizers hands back fresh containers: it does not write into the params it was given
   from fjsa.props import c17
   c17._ignore_grads(check)
+  # the backend choice is per-thread state read when an algorithm is built: the context manager restores it on every exit
+  from fjsa.props import c02
+  c02._scope(check)
+  c02._backend_runs(check)
   check.ob('R-DONATE', tu, f'private donors {sorted(private_donors)}', True,
            f'referenced only inside tree_util.py; donation sites in algorithms/aggregators: {n_sites}', nontrivial=True)
   # -- compression state carries a fresh key
